@@ -284,7 +284,19 @@ def counter_effects(prog, fn, memo, stack=()):
     def items_of(path):
         out = []
         val = {}            # local -> delta relative to the field's value when it was read
+        zero_known = [False]
+        cval = {}           # local -> constant it was last assigned
         for e in path.events:
+            if e[0] == "branch" and e[2].kind == "binop" and isinstance(e[2].data, dict):
+                rvb = e[2].data
+                for side, other in (("a", "b"), ("b", "a")):
+                    l_ = op_local(rvb.get(side)) if isinstance(rvb.get(side), dict) else None
+                    c_ = op_const(rvb.get(other)) if isinstance(rvb.get(other), dict) else None
+                    if l_ is not None and val.get(l_) == 0 and c_ is not None and c_.get("int") == 0:
+                        x, y = (0, 0)
+                        truth = {"Eq": True, "Ne": False, "Lt": False, "Le": True, "Gt": False, "Ge": True}.get(rvb.get("binop"))
+                        if truth is not None and paths.branch_truth(e[3]) == truth:
+                            zero_known[0] = True
             if e[0] == "assign":
                 a, rv = e[2]["a"], e[2]["rv"]
                 isfield = a["l"] == 1 and len(a["p"]) == 2 and a["p"][0] == "*" and isinstance(a["p"][1], dict) and \
@@ -304,13 +316,24 @@ def counter_effects(prog, fn, memo, stack=()):
                 if isfield:
                     c = op_const(rv.get("use")) if isinstance(rv, dict) and "use" in rv else None
                     d = src(rv.get("use")) if isinstance(rv, dict) and "use" in rv else None
-                    if c is not None and "int" in c:
+                    if c is None and isinstance(rv, dict) and "use" in rv and op_local(rv["use"]) in cval:
+                        c = {"int": cval[op_local(rv["use"])]}
+                    if c is not None and "int" in c and c["int"] == 0 and zero_known[0]:
+                        # `if n > 0 { n - 1 } else { 0 }`: on the path where the counter is known to be zero, storing 0 is
+                        # the saturated decrement (`saturating_sub(1)` is summed as -1 in the same way)
+                        out.append(("net", -1))
+                    elif c is not None and "int" in c:
                         out.append(("set", c["int"]))
                     elif d is not None:
                         out.append(("net", d))
                     else:
                         out.append(("net", "?"))
                 elif not a["p"] and isinstance(rv, dict):
+                    k_ = op_const(rv.get("use")) if "use" in rv else None
+                    if k_ is not None and "int" in k_:
+                        cval[a["l"]] = k_["int"]
+                    else:
+                        cval.pop(a["l"], None)
                     if "use" in rv and src(rv["use"]) is not None:
                         val[a["l"]] = src(rv["use"])
                     elif rv.get("binop") in ("AddWithOverflow", "Add", "SubWithOverflow", "Sub"):
